@@ -10,6 +10,7 @@ import (
 	"strconv"
 	"strings"
 	"time"
+	"unicode/utf8"
 )
 
 // JS Numbers are 64-bit floating point and can only represent 53-bits of precision,
@@ -209,8 +210,33 @@ func (j *jsonWriter) Struct(tag int, f func(writer)) {
 // TextString implements writer.
 func (j *jsonWriter) TextString(tag int, str string) {
 	j.encodeAppend(TypeTextString, tag, func(b []byte) []byte {
-		return strconv.AppendQuote(b, str)
+		return appendJSONString(b, str)
 	})
+}
+
+// appendJSONString appends str as a JSON string literal. Unlike strconv.AppendQuote, which
+// uses Go escape sequences (\x01, \a, \v, \U0001F511) unknown to JSON, only JSON escapes are produced.
+func appendJSONString(b []byte, str string) []byte {
+	const hexDigits = "0123456789abcdef"
+	b = append(b, '"')
+	for _, r := range str {
+		switch {
+		case r == '"' || r == '\\':
+			b = append(b, '\\', byte(r))
+		case r == '\n':
+			b = append(b, '\\', 'n')
+		case r == '\r':
+			b = append(b, '\\', 'r')
+		case r == '\t':
+			b = append(b, '\\', 't')
+		case r < 0x20:
+			b = append(b, '\\', 'u', '0', '0', hexDigits[r>>4], hexDigits[r&0xF])
+		default:
+			// Invalid UTF-8 sequences are decoded as utf8.RuneError and written as U+FFFD
+			b = utf8.AppendRune(b, r)
+		}
+	}
+	return append(b, '"')
 }
 
 type jsonReader struct {
